@@ -493,17 +493,27 @@ func genC05(c *lp.Ctx) {
 			}
 		}
 		// (d) hostile: truncated bodies and byte flips (answers compared with the model only)
-		for k := 0; k < 3 && len(body) > 0; k++ {
+		for k := 0; k < 7 && len(body) > 0; k++ {
 			var b []byte
-			if k == 0 {
+			switch {
+			case k == 0:
 				b = body[:r.Intn(len(body))]
-			} else {
+			case k <= 3: // one bit flipped, biased to the front (keys and lengths of the top-level fields)
 				b = append([]byte(nil), body...)
 				pos := r.Intn(len(b))
 				if len(b) > 64 && r.Intn(2) == 0 {
 					pos = r.Intn(64)
 				}
 				b[pos] ^= byte(1 << uint(r.Intn(8)))
+			case k == 4: // one byte replaced
+				b = append([]byte(nil), body...)
+				b[r.Intn(len(b))] = byte(r.Intn(256))
+			case k == 5: // one byte deleted
+				pos := r.Intn(len(body))
+				b = append(append([]byte(nil), body[:pos]...), body[pos+1:]...)
+			default: // one byte inserted
+				pos := r.Intn(len(body) + 1)
+				b = append(append(append([]byte(nil), body[:pos]...), byte(r.Intn(256))), body[pos:]...)
 			}
 			if len(b) > 20000 {
 				continue
